@@ -257,7 +257,7 @@ func c11vClass(err error) string {
 		return "err:validation:date"
 	case strings.Contains(err.Error(), "'proof' is required"):
 		return "err:validation:proof"
-	case strings.Contains(err.Error(), "credential ID must start with issuer"):
+	case strings.Contains(err.Error(), "credential ID must start with issuer"), strings.Contains(err.Error(), "'ID' is required"):
 		return "err:validation"
 	}
 	return "err:other:" + err.Error()
@@ -396,6 +396,9 @@ func (g *c11vGen) next() c11vOp {
 			issuer = g.did() // possibly a credential whose id is not prefixed by its issuer
 		}
 		op := c11vOp{Op: "vverify", ID: id, Issuer: issuer, Kind: "other"}
+		if r.Intn(30) == 0 {
+			op.ID = ""
+		}
 		if r.Intn(6) == 0 {
 			op.Kind = "nutsorg"
 		}
